@@ -260,7 +260,12 @@ class _Gen:
             shape = self.cells[cell][0]
             return self.op(["setcell", cell, self.payload(binary=(shape == "bin"))[1]])
         if what == "expect":
-            return self.op(["expect", self.mismatch()])
+            mm = self.mismatch()
+            if mm is not None and not mm["stock_empty"] and t.chance("program", 1, 12, "mismatch-whose-describe-raises"):
+                # user matcher code that fails while the failed expectation is being recorded: an error raised
+                # by the stage, from inside expectThat
+                mm["describe_raises"] = True
+            return self.op(["expect", mm])
         if what == "assert":
             return self.op(["assert", self.mismatch()])
         if what == "assert_fn":
@@ -345,6 +350,8 @@ def gen_program(tape, cfg):
                 "pos": t.draw("program", 5, "handler-pos"),
                 "reports": t.choice("program", ("failure", "error", "skip"), "handler-reports"),
             })
+    # the handlers are inserted before run() - or by the test itself, first thing in its (first) setUp
+    prog["handlers_in_setup"] = bool(prog["handlers"]) and t.chance("program", 1, 4, "handlers-inserted-in-setUp")
     prog["force_before_run"] = None
     if cfg.force and cfg.force_before_run and t.chance("program", 1, 20, "force-failure-set-before-run"):
         prog["force_before_run"] = t.choice("program", ("instance", "class"), "where")
@@ -378,11 +385,14 @@ def jsonable(x):
 
 # ----------------------------------------------------------------------------- interpreter
 class ScriptedMismatch:
-    def __init__(self, desc, details):
+    def __init__(self, desc, details, describe_raises=False):
         self._desc = desc
         self._details = details
+        self._describe_raises = describe_raises
 
     def describe(self):
+        if self._describe_raises:
+            raise RuntimeError(self._desc)
         return self._desc
 
     def get_details(self):
@@ -421,7 +431,7 @@ class ScriptedMatcher:
                                                  (lambda c=chunks: list(c)))
         if self._mm.get("stock_empty") and not details:
             return _EmptyAll(self._mm["desc"])
-        return ScriptedMismatch(self._mm["desc"], details)
+        return ScriptedMismatch(self._mm["desc"], details, bool(self._mm.get("describe_raises")))
 
     def __str__(self):
         return "Scripted(%s)" % (self._mm["desc"] if self._mm else "ok")
@@ -679,7 +689,7 @@ def run_ops(case, env, ops):
                 raised = e
                 raise
             finally:
-                env.op_obs.append((what, oid, mm is not None,
+                env.op_obs.append((what, oid, "raises" if (mm is not None and mm.get("describe_raises")) else mm is not None,
                                    None if raised is None else type(raised).__name__,
                                    len(matcher.seen)))
         elif what == "patch":
@@ -758,6 +768,9 @@ def build_case(prog, env, run_test_with=None):
 
     class Scripted(testtools.TestCase):
         def setUp(self):
+            if prog.get("handlers_in_setup") and not self.__dict__.get("_verif_handlers_in"):
+                self._verif_handlers_in = True
+                install_handlers(self)
             run_ops(self, env, stages["setUp_pre"])
             super().setUp()
             env.world.xlog("upcall", "setUp")
@@ -793,6 +806,20 @@ def build_case(prog, env, run_test_with=None):
     if prog.get("force_before_run") == "class":
         Scripted.force_failure = True
 
+    def install_handlers(case):
+        for h in prog["handlers"]:
+            cls = USER_CLASSES[h["cls"]]
+            method = _REPORT[h["reports"]]
+
+            def handler(case_, result, exc, method=method, h=h):
+                env.user_handler_log.append((env.world.tick(), h["cls"], h["reports"]))
+                if method == "addSkip":
+                    case_.addDetail("reason", _content.text_content("user-handler-skip"))
+                getattr(result, method)(case_, details=case_.getDetails())
+
+            pos = min(h["pos"], len(case.exception_handlers))
+            case.exception_handlers.insert(pos, (cls, handler))
+
     def make_sibling():
         # another test object of the same class, configured but never run: nothing of it is the
         # main object's business (handlers, cleanups, details, forced failure are per instance)
@@ -818,18 +845,8 @@ def build_case(prog, env, run_test_with=None):
         make_sibling()
     if prog.get("force_before_run") == "instance":
         case.force_failure = True
-    for h in prog["handlers"]:
-        cls = USER_CLASSES[h["cls"]]
-        method = _REPORT[h["reports"]]
-
-        def handler(case_, result, exc, method=method, h=h):
-            env.user_handler_log.append((env.world.tick(), h["cls"], h["reports"]))
-            if method == "addSkip":
-                case_.addDetail("reason", _content.text_content("user-handler-skip"))
-            getattr(result, method)(case_, details=case_.getDetails())
-
-        pos = min(h["pos"], len(case.exception_handlers))
-        case.exception_handlers.insert(pos, (cls, handler))
+    if not prog.get("handlers_in_setup"):
+        install_handlers(case)
     return case
 
 
@@ -919,7 +936,11 @@ class Model:
             elif what == "setcell":
                 self.cells[op[1]] = list(op[2])
             elif what == "expect":
-                if op[1] is not None:
+                if op[1] is not None and op[1].get("describe_raises"):
+                    # the mismatch's details are attached, then rendering it raises out of expectThat
+                    self._mm_details(oid, op[1])
+                    self._raise("error", op[1]["desc"], stage)
+                elif op[1] is not None:
                     self.force = True
                     self.expect_mismatches.append((oid, op[1]))
                     self._mm_details(oid, op[1])
